@@ -180,7 +180,7 @@ package initializer
 //@ loop range conf.Webhooks #0
 //@   invariant [C20:validating-webhooks-so-far-carry-the-bundle] forall j :: 0 <= j && j < done ==> as(obj, *admv1.ValidatingWebhookConfiguration).Webhooks[j].ClientConfig.CABundle == caBundle
 //@ loop range conf.Webhooks #1
-//@   invariant [C20:mutating-webhooks-so-far-carry-the-bundle] forall j :: 0 <= j && j < done ==> conf.Webhooks[j].ClientConfig.CABundle == caBundle
+//@   invariant [C20:mutating-webhooks-so-far-carry-the-bundle] forall j :: 0 <= j && j < done ==> as(obj, *admv1.MutatingWebhookConfiguration).Webhooks[j].ClientConfig.CABundle == caBundle
 //@ site (*resource.APIPatchingApplicator).Apply(_, _, $o)
 //@   assert [C20:bundle-is-the-current-serving-certificate] len(caBundle) > 0 && caBundle == as($secret, *corev1.Secret).Data["tls.crt"]
 //@   assert [C20:every-validating-webhook-carries-the-current-ca-bundle] typeis($o, *admv1.ValidatingWebhookConfiguration) ==>
